@@ -441,6 +441,9 @@ pub struct ExpectedTx {
     pub wide: bool,
     /// a quantity that does not fit its ledger field: (field, value)
     pub out_of_range: Vec<String>,
+    /// an output token quantity in (i64::MAX, u64::MAX]: representable on the ledger, but in the
+    /// region where C02 judges conversions; C01 leaves such cases to C02
+    pub beyond_i64: bool,
 }
 
 fn u64_max() -> BigInt {
@@ -536,6 +539,9 @@ pub fn denote(env: &Env) -> Result<ExpectedTx, EvalErr> {
                 Class::Token(p, n) => {
                     if p.len() != 28 {
                         return unsupported("token policy must be 28 bytes in the modelled fragment");
+                    }
+                    if *q > BigInt::from(i64::MAX) {
+                        x.beyond_i64 = true;
                     }
                     assets.insert((p.clone(), n.clone()), q.clone());
                 }
